@@ -1,3 +1,4 @@
+(* roots: C18 C08 C09 *)
 (* Shared by the three btor2 front-end properties (C08, C09, C18) + the C08 handler.
 
    Shared part: reading the implementation's system dumped as a DAG
